@@ -113,6 +113,21 @@ class NullLogger:
         return 30
 
 
+_real_len = len
+
+
+def symlen(x):
+    """Replacement for `len` in the module under analysis: the size of a
+    symbolic node table stays a term instead of being enumerated."""
+    f = getattr(x, 'symlen', None)
+    if f is not None:
+        return SymInt(z3.simplify(f()))
+    succ = getattr(x, '_succ', None)
+    if succ is not None and hasattr(succ, 'symlen') and hasattr(x, '_pred'):
+        return SymInt(z3.simplify(succ.symlen()))
+    return _real_len(x)
+
+
 def std_shadows(sh, B, hdict=None, hset=None):
     """The standard interception for dd.bdd (DESIGN.md 3.3)."""
     from . import hcont
@@ -122,6 +137,7 @@ def std_shadows(sh, B, hdict=None, hset=None):
     sh.set(B, 'max', engine.symmax)
     sh.set(B, 'isinstance', engine.symisinstance)
     sh.set(B, 'logger', NullLogger())
+    sh.set(B, 'len', symlen)
 
 
 def ev_int(model, t):
